@@ -5,6 +5,8 @@ patch="$1"; shift
 cd /verif
 git -C /repo status --short | grep -q . && { echo "/repo is dirty"; exit 2; }
 git -C /repo apply "$patch" || { echo "patch does not apply"; exit 2; }
+# evidence files must describe the unchanged tree: keep them aside while the seeded tree is checked
+rm -rf work/evidence_keep && cp -r evidence work/evidence_keep
 first=1
 for c in "$@"; do
   echo "== $c (with seed)"
@@ -14,5 +16,6 @@ for c in "$@"; do
   grep -E "^  " work/seed_$c.log | head -5 | cut -c1-220
 done
 git -C /repo checkout -- .
+cp work/evidence_keep/*.json evidence/ && rm -rf work/evidence_keep
 git -C /repo status --short | head -3
 (cd harness && cargo build --offline 2>&1 | tail -1)
